@@ -44,6 +44,9 @@ where
     #[error("duplicate operation {0} processed in group {1}")]
     DuplicateOperation(OP, ID),
 
+    #[error("operation {0} depends on operations which have not been processed yet: {1:?}")]
+    MissingDependencies(OP, Vec<OP>),
+
     #[error("group cycle detected adding {0} to {1} operation={2}")]
     GroupCycle(ID, ID, OP),
 
@@ -562,6 +565,21 @@ where
             return Err(GroupCrdtError::DuplicateOperation(
                 operation.id(),
                 operation.group_id(),
+            ));
+        }
+
+        // An operation can only extend the graph at operations which have been processed before.
+        // Anything else is a violation of the partial-ordering requirement (or an operation
+        // pointing at something which is not a group operation at all) and can't be validated.
+        let missing_dependencies: Vec<OP> = operation
+            .dependencies()
+            .into_iter()
+            .filter(|dependency| !y.inner.operations.contains_key(dependency))
+            .collect();
+        if !missing_dependencies.is_empty() {
+            return Err(GroupCrdtError::MissingDependencies(
+                operation.id(),
+                missing_dependencies,
             ));
         }
 
